@@ -128,7 +128,17 @@ Fixpoint blocks_of_item (it : item) : list (name * bdef) :=
   end.
 Definition blocks_of (top : list item) : list (name * bdef) := flat_map blocks_of_item top.
 
-Definition env := list (name * list item).
+(* the templates of an environment: one that loads, or one that EXISTS but does not load
+   (syntax error in its source, failing loader) - looking it up fails with that error *)
+Inductive tmpl := TGood (top : list item) | TBad (code : Z).
+Definition env := list (name * tmpl).
+(* Environment::get_template: Ok None = there is no such template (TemplateNotFound) *)
+Definition find_tmpl (E : env) (n : name) : outcome (option (list item)) :=
+  match assoc n E with
+  | None => Ok None
+  | Some (TGood top) => Ok (Some top)
+  | Some (TBad c) => Err c
+  end.
 
 Definition wrap_err {A} (k : Z) (o : outcome A) : outcome A :=
   match o with
